@@ -709,14 +709,14 @@ type RangeIter struct {
 	tpos  *Term
 }
 
-func (m *Machine) mkRange(v Value) Value {
+func (m *Machine) mkRange(fr *Frame, v Value) Value {
 	switch x := v.(type) {
 	case MapV:
 		it := &RangeIter{m: x.m}
 		if x.m != nil {
 			m.onMapAccess(x.m, false)
 			it.snap = append([]*MapEntry(nil), x.m.entries...)
-			if m.H.Opts["maporder"] == "all" && len(it.snap) > 1 {
+			if m.H.Opts["maporder"] == "all" && len(it.snap) > 1 && !m.isHarnessFn(fr.fn) {
 				// arbitrary iteration order: choose a permutation by successive choices
 				rest := it.snap
 				var perm []*MapEntry
